@@ -35,6 +35,16 @@ def _setup(w, op, h0, sp, s0, s1):
             c.add_streamed_object(w.stream(1, s1))
             c.add_streamed_object(w.stream(0, s0))
 
+    elif op == 'loose_damaged':  # the existing loose copy of obj0 is corrupt: re-adding obj0 replaces it
+        w.put_loose(0, s0)
+        w.damage_loose(w.key(0, s0), s0)
+        pre = [(2, sp)]
+        new = [(0, s0), (1, s1)]
+
+        def run(c):
+            c.add_streamed_object(w.stream(0, s0))
+            c.add_streamed_object(w.stream(1, s1))
+
     elif op == 'delete':  # obj0 loose is deleted, obj2 (packed) too; obj1 (loose) and obj3 (packed) stay
         w.put_loose(0, s0)
         w.put_loose(1, s1)
@@ -80,7 +90,23 @@ def _setup(w, op, h0, sp, s0, s1):
     return pre, new, deleted, run
 
 
-def _image_ok(img, w, pre, new, deleted):
+def _image_ok(img, w, pre, new, deleted, op=None):
+    if op == 'loose_damaged':
+        # obj0's loose copy was corrupt before the operation (not the library's doing): at every instant its key holds
+        # either that same junk, untouched, or the complete right bytes -- never a partial or unsynced replacement
+        new = list(new)
+        i, size = new.pop(0)
+        ld = img.loose_data(w.key(i, size))
+        if ld is None or not (ld == w.content(i, size) or ld == w.junk(9, size)):
+            return False
+        allowed = objs_map(w, pre + new + deleted + [(i, size)])
+        for r in img.rows():
+            if r['hashkey'] not in allowed:
+                return False
+        for k in img.loose_keys():
+            if k not in allowed:
+                return False
+        return inv_ok(img, w, objs_map(w, pre), exact=False) and visible_complete(img, w, objs_map(w, new + deleted))
     allowed = objs_map(w, pre + new + deleted)
     for r in img.rows():
         if r['hashkey'] not in allowed:
@@ -126,9 +152,9 @@ def _crash(op, durable, h0, sp, s0, s1, target, crash_at):
             pass
         if not w.box:
             return True  # the operation ended before the crash point
-        if not _image_ok(w.box[0], w, pre, new, deleted):
+        if not _image_ok(w.box[0], w, pre, new, deleted, op):
             return False
-        return durable or _fresh_reads_ok(w, w.box[0], op, pre, new)
+        return durable or op == 'loose_damaged' or _fresh_reads_ok(w, w.box[0], op, pre, new)
     finally:
         if getattr(w, 'src', None) is not None:
             w.src.cleanup()
@@ -146,6 +172,22 @@ def _reached(op, h0, sp, s0, s1, target, crash_at):
         except Crash:
             pass
         return len(w.box) == 0
+    finally:
+        if getattr(w, 'src', None) is not None:
+            w.src.cleanup()
+        w.cleanup()
+
+
+def _gpacker(op, h0, sp, s0, s1, target):
+    """C04, the packer's guarantee to concurrent readers: a row is committed only when its bytes are already visible in
+    the pack file (flushed), and a loose file is unlinked only when a committed row with visible bytes replaces it."""
+    w = make_world(target)
+    try:
+        pre, new, deleted, run = _setup(w, op, h0, sp, s0, s1)
+        w.install_commit_monitor(durable=False)
+        run(w.c)
+        w.finish_monitor()
+        return w.monitor_ok
     finally:
         if getattr(w, 'src', None) is not None:
             w.src.cleanup()
@@ -178,7 +220,7 @@ def _fault(op, h0, sp, s0, s1, target, fault_at):
         except OSError:
             pass
         w.install_fault(-1)
-        if not _image_ok(w.image(), w, pre, new, deleted):
+        if not _image_ok(w.image(), w, pre, new, deleted, op):
             return False
         if op == 'repack':
             return True  # an interrupted repack needs manual repair: no rerun is demanded (C17)
